@@ -157,6 +157,16 @@ func c13Exchange(t *testing.T, c *vkit.Check, cs c13Case, live bool) (obs c13Obs
 		return obs, false
 	}
 
+	// ICETransport.Start records the role, then connects (offline: blocks in the attempt until Close).
+	for _, pc := range []*PeerConnection{off, ans} {
+		tr := pc.iceTransport
+		vAnsWaitFor(t, fmt.Sprintf("ICE transport start (%s, %+v)", obs.Mode, cs), func() bool { return tr.Role() != ICERoleUnknown })
+	}
+	if live && off.iceTransport.Role() == ans.iceTransport.Role() {
+		// two controlling or two controlled agents do not connect: judged from the offline evaluation below
+		live = false
+		obs.Mode = "live, ICE roles equal so not connected"
+	}
 	if live {
 		// ICE connects for real; DTLSTransport.Start has taken its role once the state left "new".
 		for _, pc := range []*PeerConnection{off, ans} {
@@ -171,11 +181,6 @@ func c13Exchange(t *testing.T, c *vkit.Check, cs c13Case, live bool) (obs c13Obs
 		}
 		obs.DTLSOfferer, obs.DTLSAnswer = roleUsed(off).String(), roleUsed(ans).String()
 	} else {
-		// ICETransport.Start records the role, then blocks in the connect attempt until Close.
-		for _, pc := range []*PeerConnection{off, ans} {
-			tr := pc.iceTransport
-			vAnsWaitFor(t, fmt.Sprintf("ICE transport start (offline, %+v)", cs), func() bool { return tr.Role() != ICERoleUnknown })
-		}
 		obs.DTLSOfferer, obs.DTLSAnswer = c13DTLSRoleWith(off).String(), c13DTLSRoleWith(ans).String()
 	}
 	obs.ICEOfferer, obs.ICEAnswerer = off.iceTransport.Role().String(), ans.iceTransport.Role().String()
